@@ -14,6 +14,7 @@ PAIR_GROUPS = {
         ("eol", "layout"), ("eol", "mult"), ("eol", "prelude"), ("eol", "postlude"), ("eol", "import"),
         ("import", "layout"), ("import", "args"), ("mult", "nest"), ("mult", "import"), ("indent", "layout"),
         ("args", "layout"), ("postlude", "nest"), ("args", "nest"), ("indent", "eol"),
+        ("importnames", "nest"), ("importnames", "eol"), ("importnames", "import"), ("importnames", "mult"),
     ]
 }
 
